@@ -5,19 +5,30 @@ here decide the same behaviour from facts computed on the current code, whatever
 evaluation of an extracted fragment on one representative per class of its finite input partition; nothing of the
 library is imported or run - the statements are read from the ast and interpreted by sa/blockeval + sa/consteval with
 rule-supplied stubs for atoms, residues, the Enum of atom types, the KD-tree (modelled as 'every pair within the radius,
-once'), numpy's norm, argparse, open, csv and print):
+once'; ball queries as 'every index within the radius'), numpy's norm / arrays of points, argparse (every declared
+argument becomes an attribute; a boolean switch holds a token naming its command-line spelling), open, csv (writer and
+DictWriter), print / sys.stdout, pathlib, and the pure stdlib helpers operator / itertools / functools / heapq /
+collections; record classes of the module - NamedTuple, namedtuple, dataclass - and plain classes are instantiated as
+records whose methods are evaluated the same way; generator helpers are evaluated eagerly):
 
   find_clashes   one synthetic structure made of well separated two-atom clusters - one cluster per class of
                  (type pair x distance cell) and of (same/different residue x nucleotide flags x equal/different names x
-                 occupancy class x distance cell) - evaluated for all 32 option combinations and compared with the
+                 occupancy class incl. 0.0, missing and a sum of 0.99 x distance cell), two *different* residues that
+                 share chain+number / number / chain+number+insertion code, atoms of no known type (H, M, and hydrogens
+                 named HO.. / HN.. / HC.. / HP..) - evaluated for all 32 option combinations and compared with the
                  pairwise van-der-Waals definition; every atomic condition met during the evaluation must be a function
-                 of one feature of the definition (closed world: nothing else may skip a pair)
+                 of one feature of the definition (closed world: nothing else may skip a pair); the pair a condition is
+                 about is read from the index items of the KD-tree model on the loop stack, the atom handed to a helper
+                 from its call frame
   main           the whole function evaluated on a representative clash list (file order of the residues both equal and
-                 opposite to their sort order, several records per group, maxima not at the end) with tokens standing
-                 for chains, residues and atom names: listed atom lines / CSV rows = the clashes, every atom attributed
-                 to its own residue (key and record of a filed clash agree on orientation), printed maxima = maxima of
-                 the lines listed below the heading, report and CSV in the same order, nothing depends on the iteration
-                 order of a set
+                 opposite to their sort order; three records per residue pair and five residue pairs per chain pair with
+                 the largest sum in the middle of file order and of sort order; residue pairs that differ only in chain,
+                 insertion code or residue name) with tokens standing for chains, residues and atom names: listed atom
+                 lines / CSV rows = the clashes, every atom attributed to its own residue (key and record of a filed
+                 clash agree on orientation), printed maxima = maxima of the lines listed below the heading (the message
+                 names the print statement and the expression whose value is printed), report and CSV in the same order,
+                 nothing depends on the iteration order of a set; the evaluated call of find_clashes binds every option
+                 parameter to the switch of the same name (positional or keyword); read_metadata receives an open file
 """
 from __future__ import annotations
 
@@ -137,13 +148,26 @@ def _as_vec(p):
     raise NotConst("KD-tree point is not a coordinate vector")
 
 
+def _as_array(x, *a, **k):
+    """numpy.array of one point is the point; of a sequence of points the list of the points (indexing gives a point)."""
+    if isinstance(x, Vec):
+        return x
+    if isinstance(x, (list, tuple)) and x and all(isinstance(p, Vec) or (isinstance(p, (list, tuple)) and len(p) == 3 and all(isinstance(c, (int, float)) for c in p)) for p in x):
+        return [_as_vec(p) for p in x]
+    if isinstance(x, (list, tuple)) and not x:
+        return []
+    return _as_vec(x)
+
+
 def np_stub():
     ns = types.SimpleNamespace
     return ns(
         _folder_stub=True,
         linalg=ns(_folder_stub=True, norm=_norm),
-        array=lambda x: _as_vec(x) if not isinstance(x, Vec) else x,
-        asarray=lambda x: _as_vec(x) if not isinstance(x, Vec) else x,
+        array=_as_array,
+        asarray=_as_array,
+        vstack=_as_array,
+        stack=_as_array,
         sqrt=lambda x: math.sqrt(x),
         sum=lambda x: sum(x),
         dot=lambda a, b: a.dot(b),
@@ -157,21 +181,42 @@ class PairIdx(tuple):
     atoms: Tuple[Any, Any] = (None, None)
 
 
+class CallFrame(tuple):
+    """arguments of an evaluated helper call (an item of the context stack of the condition trace)"""
+
+
+class IdxS(int):
+    """index of a point returned by a ball query of the KD-tree model"""
+
+
+def _isidx(x) -> bool:
+    return isinstance(x, int) and not isinstance(x, bool)
+
+
 class KDTreeModel(Stub):
     """scipy.spatial.KDTree as trusted: query_pairs(r) = every pair i < j of points at distance <= r, exactly once."""
 
-    def __init__(self, log: List[float]):
+    def __init__(self, log: List[float], calls: Optional[List[Any]] = None):
         self.log = log
+        self.calls: List[Any] = calls if calls is not None else []  # the statements that asked for neighbours
+        self.built: List["KDTreeModel"] = []
+
+    def _asked(self):
+        cur = Ev.current
+        if cur is not None and cur[1] is not None and not any(cur[1] is c for c in self.calls):
+            self.calls.append(cur[1])
 
     def __call__(self, points, *a, **k):
-        t = KDTreeModel(self.log)
+        t = KDTreeModel(self.log, self.calls)
         t.points = [_as_vec(p) for p in points]
+        self.built.append(t)
         return t
 
     def query_pairs(self, r, *a, **k):
         if not isinstance(r, (int, float)) or isinstance(r, bool):
             raise NotConst("KD-tree radius is not a number")
         self.log.append(float(r))
+        self._asked()
         pts = self.points
         order = sorted(range(len(pts)), key=lambda i: pts[i].xs[0])
         out = []
@@ -185,6 +230,27 @@ class KDTreeModel(Stub):
                     out.append(p)
         out.sort()
         return out
+
+    def _near(self, x, r):
+        x = _as_vec(x)
+        return [IdxS(i) for i, p in enumerate(self.points) if _norm(p - x) <= r]
+
+    def query_ball_point(self, x, r, *a, **k):
+        """indices of the points within r of x (x itself included when it is a point of the tree); one list per point for a sequence"""
+        if not isinstance(r, (int, float)) or isinstance(r, bool):
+            raise NotConst("KD-tree radius is not a number")
+        self.log.append(float(r))
+        self._asked()
+        if isinstance(x, Vec) or (isinstance(x, (list, tuple)) and len(x) == 3 and all(isinstance(c, (int, float)) for c in x)):
+            return self._near(x, r)
+        return [self._near(p, r) for p in x]
+
+    def query_ball_tree(self, other, r, *a, **k):
+        if not isinstance(other, KDTreeModel) or not isinstance(r, (int, float)) or isinstance(r, bool):
+            raise NotConst("KD-tree ball query")
+        self.log.append(float(r))
+        self._asked()
+        return [other._near(p, r) for p in self.points]
 
 
 _serial = itertools.count(1)
@@ -212,13 +278,18 @@ class AtomS(Stub):
 
 
 class ResidueS(Stub):
-    def __init__(self, chain: str, number: int, atoms: Sequence[AtomS], is_nucleotide: bool = True, token: Optional[str] = None):
-        self.chain, self.number, self.icode, self.name = chain, number, None, "G"
+    """A residue: identity = the object (as Residue3D's field-by-field equality tells apart any two residues of one input);
+    chain / number / icode / name are the components a narrower comparison could look at; ordered like Residue3D.__lt__."""
+
+    def __init__(self, chain: str, number: int, atoms: Sequence[AtomS], is_nucleotide: bool = True, token: Optional[str] = None, icode: Optional[str] = None, name: str = "G"):
+        self.chain, self.number, self.icode, self.name = chain, number, icode, name
+        self.one_letter_name = name
+        self.model = 1
         self.atoms = tuple(atoms)
         self.is_nucleotide = is_nucleotide
         self.k = next(_serial)
-        self.token = token or f"{chain}.{number}"
-        self.sortkey = (chain, number)
+        self.token = token or f"{chain}.{name}{number}{icode or ''}"
+        self.sortkey = (chain, number, icode or " ")
         for a in self.atoms:
             a.owner = self
 
@@ -372,12 +443,341 @@ class EnumS(Stub):
         raise AttributeError(name)
 
 
+class RecordClassS(Stub):
+    """A record class of the analysed module (typing.NamedTuple / collections.namedtuple / @dataclass): calling it makes a
+    record with the declared fields; methods and properties of the class body are evaluated on demand (not run)."""
+
+    def __init__(self, repo, module: str, cname: str, fields: List[Tuple[str, Optional[ast.AST]]], kind: str, funcs: Dict[str, ast.FunctionDef], frozen: bool = True, order: bool = False, eq: bool = True):
+        self.repo, self.module, self.cname, self.fields, self.kind, self.funcs = repo, module, cname, fields, kind, funcs
+        self.frozen, self.order, self.eq = frozen, order, eq
+        self.names = [f for f, _ in fields]
+
+    @staticmethod
+    def read(repo, module: str, cls: ast.ClassDef) -> Optional["RecordClassS"]:
+        bases = {norm(b).split(".")[-1] for b in cls.bases}
+        deco = None
+        for d in cls.decorator_list:
+            if norm(d.func if isinstance(d, ast.Call) else d).split(".")[-1] == "dataclass":
+                deco = d
+        if "NamedTuple" not in bases and deco is None:
+            return None
+        if bases - {"NamedTuple"} or cls.keywords:
+            return None  # inherited fields are not read
+        fields: List[Tuple[str, Optional[ast.AST]]] = []
+        funcs: Dict[str, ast.FunctionDef] = {}
+        for b in cls.body:
+            if isinstance(b, ast.AnnAssign) and isinstance(b.target, ast.Name):
+                if "ClassVar" in norm(b.annotation):
+                    continue
+                fields.append((b.target.id, b.value))
+            elif isinstance(b, ast.FunctionDef):
+                funcs[b.name] = b
+            elif isinstance(b, ast.Expr) and isinstance(b.value, ast.Constant):
+                continue
+            elif isinstance(b, ast.Pass):
+                continue
+            else:
+                return None
+        if {"__init__", "__new__", "__post_init__", "__eq__", "__hash__", "__lt__", "__iter__", "__getitem__"} & set(funcs):
+            return None
+        opt = {k.arg: k.value for k in deco.keywords} if isinstance(deco, ast.Call) else {}
+        flag = lambda name, default: (opt[name].value if name in opt and isinstance(opt[name], ast.Constant) else default)
+        if "NamedTuple" in bases:
+            return RecordClassS(repo, module, cls.name, fields, "namedtuple", funcs)
+        return RecordClassS(repo, module, cls.name, fields, "dataclass", funcs, frozen=bool(flag("frozen", False)), order=bool(flag("order", False)), eq=bool(flag("eq", True)))
+
+    def __call__(self, *args, **kw):
+        if len(args) > len(self.fields) or any(k not in self.names for k in kw) or any(k in self.names[: len(args)] for k in kw):
+            raise NotConst(f"arguments of {self.cname}")
+        vals = dict(zip(self.names, args))
+        vals.update(kw)
+        for name, default in self.fields:
+            if name not in vals:
+                if default is None:
+                    raise NotConst(f"missing field {name} of {self.cname}")
+                vals[name] = Folder(self.repo, self.module).fold(default)
+        return RecS(self, [vals[n] for n in self.names])
+
+    def _make(self, it):
+        return self(*list(it))
+
+
+class RecS(Stub):
+    def __init__(self, cls: RecordClassS, vals: List[Any]):
+        self.__dict__["_cls"] = cls
+        self.__dict__["_vals"] = list(vals)
+
+    def __getattr__(self, attr):
+        cls, vals = self.__dict__["_cls"], self.__dict__["_vals"]
+        if attr in cls.names:
+            return vals[cls.names.index(attr)]
+        fn = cls.funcs.get(attr)
+        if fn is None:
+            raise AttributeError(attr)
+        decos = {ast.unparse(d).split(".")[-1].split("(")[0] for d in fn.decorator_list}
+        params = [a.arg for a in fn.args.args]
+        if decos & {"staticmethod", "classmethod"}:
+            raise AttributeError(attr)
+
+        def run(*args):
+            if len(args) != len(params) - 1:
+                raise NotConst(f"arity of {attr}")
+            ev = Ev(cls.repo, cls.module, dict(base_env(cls.repo), **dict(zip(params, (self,) + args))))
+            kind, val = ev.run(fn.body)
+            return val if kind == "return" else None
+
+        if decos & {"property", "cached_property"}:
+            return run()
+        return run
+
+    def __setattr__(self, attr, v):
+        cls = self.__dict__["_cls"]
+        if cls.kind == "namedtuple" or cls.frozen or attr not in cls.names:
+            raise NotConst(f"assignment to {cls.cname}.{attr}")
+        self.__dict__["_vals"][cls.names.index(attr)] = v
+
+    def _tuple(self):
+        return tuple(self.__dict__["_vals"])
+
+    def __iter__(self):
+        if self.__dict__["_cls"].kind != "namedtuple":
+            raise TypeError("record is not iterable")
+        return iter(self.__dict__["_vals"])
+
+    def __len__(self):
+        if self.__dict__["_cls"].kind != "namedtuple":
+            raise TypeError("record has no len()")
+        return len(self.__dict__["_vals"])
+
+    def __getitem__(self, i):
+        if self.__dict__["_cls"].kind != "namedtuple":
+            raise TypeError("record is not subscriptable")
+        return self._tuple()[i]
+
+    def __eq__(self, o):
+        cls = self.__dict__["_cls"]
+        if cls.kind == "namedtuple":
+            return self._tuple() == (o._tuple() if isinstance(o, RecS) else o)
+        if not cls.eq:
+            return self is o
+        return isinstance(o, RecS) and o.__dict__["_cls"] is cls and self._tuple() == o._tuple()
+
+    def __ne__(self, o):
+        return not self.__eq__(o)
+
+    def __hash__(self):
+        cls = self.__dict__["_cls"]
+        if cls.kind == "namedtuple" or cls.frozen:
+            return hash(self._tuple())
+        if not cls.eq:
+            return id(self) // 16
+        raise TypeError(f"unhashable type: '{cls.cname}'")
+
+    def __lt__(self, o):
+        cls = self.__dict__["_cls"]
+        if cls.kind == "namedtuple":
+            return self._tuple() < (o._tuple() if isinstance(o, RecS) else o)
+        if cls.order and isinstance(o, RecS) and o.__dict__["_cls"] is cls:
+            return self._tuple() < o._tuple()
+        raise TypeError(f"'<' not supported between instances of '{cls.cname}'")
+
+    def __repr__(self):
+        cls = self.__dict__["_cls"]
+        return f"{cls.cname}({', '.join(f'{n}={v!r}' for n, v in zip(cls.names, self.__dict__['_vals']))})"
+
+
+class ClassS(Stub):
+    """A plain class of the analysed module (no bases): calling it evaluates __init__ on a fresh instance; methods and
+    properties are evaluated on demand with self bound; class-level constants are folded."""
+
+    def __init__(self, repo, module: str, cls: ast.ClassDef):
+        self.repo, self.module, self.cname = repo, module, cls.name
+        self.funcs = {b.name: b for b in cls.body if isinstance(b, ast.FunctionDef)}
+        self.consts = {t.id: b.value for b in cls.body if isinstance(b, ast.Assign) for t in b.targets if isinstance(t, ast.Name)}
+        self.consts.update({b.target.id: b.value for b in cls.body if isinstance(b, ast.AnnAssign) and isinstance(b.target, ast.Name) and b.value is not None})
+
+    @staticmethod
+    def read(repo, module: str, cls: ast.ClassDef) -> Optional["ClassS"]:
+        if [b for b in cls.bases if norm(b) != "object"] or cls.keywords or cls.decorator_list:
+            return None
+        for b in cls.body:
+            if not isinstance(b, (ast.FunctionDef, ast.Assign, ast.AnnAssign, ast.Pass)) and not (isinstance(b, ast.Expr) and isinstance(b.value, ast.Constant)):
+                return None
+        if any(k.startswith("__") and k not in ("__init__", "__len__", "__bool__", "__iter__", "__contains__", "__str__", "__repr__") for k in (b.name for b in cls.body if isinstance(b, ast.FunctionDef))):
+            return None
+        return ClassS(repo, module, cls)
+
+    def __call__(self, *args, **kw):
+        inst = InstS(self)
+        if "__init__" in self.funcs:
+            inst._call(self.funcs["__init__"], args, kw)
+        elif args or kw:
+            raise NotConst(f"arguments of {self.cname}")
+        return inst
+
+
+class InstS(Stub):
+    def __init__(self, cls: ClassS):
+        self.__dict__["_cls"] = cls
+        self.__dict__["_attrs"] = {}
+
+    def _call(self, fn: ast.FunctionDef, args, kw):
+        cls = self.__dict__["_cls"]
+        a = fn.args
+        if a.vararg or a.kwarg or a.kwonlyargs or a.posonlyargs:
+            raise NotConst(f"signature of {cls.cname}.{fn.name}")
+        params = [p.arg for p in a.args]
+        defaults = dict(zip(reversed(params), reversed(a.defaults)))
+        if len(args) + 1 > len(params) or any(k not in params[1:] for k in kw):
+            raise NotConst(f"arity of {cls.cname}.{fn.name}")
+        bound = dict(zip(params, (self,) + tuple(args)))
+        bound.update(kw)
+        for p_ in params:
+            if p_ not in bound:
+                if p_ not in defaults:
+                    raise NotConst(f"missing argument {p_} of {cls.cname}.{fn.name}")
+                bound[p_] = Folder(cls.repo, cls.module).fold(defaults[p_])
+        caller = Ev.current[0] if Ev.current is not None else None
+        env = {k: v for k, v in (caller.env if caller is not None else base_env(cls.repo)).items() if callable(v) or getattr(v, "_folder_stub", False)}
+        for p_ in params:
+            env.pop(p_, None)
+        env.update(bound)
+        sub = Ev(cls.repo, cls.module, env, caller.conds if caller is not None else None)
+        if caller is not None:
+            sub.ctx, sub.tag = caller.ctx, caller.tag
+        sub.ctx.append(CallFrame(bound[p_] for p_ in params[1:]))
+        try:
+            if _is_generator(fn):
+                sub.yielded = []
+                sub.run(fn.body)
+                return sub.yielded
+            kind, val = sub.run(fn.body)
+            return val if kind == "return" else None
+        finally:
+            sub.ctx.pop()
+            if caller is not None:
+                Ev.current = (caller, Ev.current[1] if Ev.current else None)
+
+    def __getattr__(self, attr):
+        cls, attrs = self.__dict__["_cls"], self.__dict__["_attrs"]
+        if attr in attrs:
+            return attrs[attr]
+        if attr in cls.funcs:
+            fn = cls.funcs[attr]
+            decos = {ast.unparse(d).split(".")[-1].split("(")[0] for d in fn.decorator_list}
+            if decos & {"staticmethod", "classmethod"} or decos - {"property", "cached_property"}:
+                raise AttributeError(attr)
+            if decos & {"property", "cached_property"}:
+                return self._call(fn, (), {})
+            return lambda *a, **k: self._call(fn, a, k)
+        if attr in cls.consts:
+            return Folder(cls.repo, cls.module).fold(cls.consts[attr])
+        raise AttributeError(attr)
+
+    def __setattr__(self, attr, v):
+        self.__dict__["_attrs"][attr] = v
+
+    def __repr__(self):
+        return f"<{self.__dict__['_cls'].cname} object>"
+
+
+class PathS(Stub):
+    """pathlib.Path as far as a report needs it: name parts of a path string."""
+
+    def __init__(self, *parts):
+        self.path = os.path.join(*[str(x) for x in parts]) if parts else "."
+
+    name = property(lambda self: os.path.basename(self.path))
+    stem = property(lambda self: os.path.splitext(os.path.basename(self.path))[0])
+    suffix = property(lambda self: os.path.splitext(os.path.basename(self.path))[1])
+    parent = property(lambda self: PathS(os.path.dirname(self.path)))
+
+    def with_suffix(self, sfx):
+        return PathS(os.path.splitext(self.path)[0] + sfx)
+
+    def __truediv__(self, o):
+        return PathS(self.path, str(o))
+
+    def __fspath__(self):
+        return self.path
+
+    def __str__(self):
+        return self.path
+
+    def __eq__(self, o):
+        return isinstance(o, PathS) and o.path == self.path
+
+    def __hash__(self):
+        return hash(self.path)
+
+
+def plain(x):
+    """NamedTuple records as the plain tuples they are (for reading results)."""
+    if isinstance(x, RecS) and x.__dict__["_cls"].kind == "namedtuple":
+        return tuple(plain(v) for v in x._tuple())
+    if isinstance(x, tuple):
+        return tuple(plain(v) for v in x)
+    return x
+
+
+class _Chain(Stub):
+    def __call__(self, *its):
+        return [x for it in its for x in it]
+
+    def from_iterable(self, its):
+        return [x for it in its for x in it]
+
+
+def _groupby(it, key=None):
+    out: List[Tuple[Any, List[Any]]] = []
+    for x in it:
+        k = key(x) if key is not None else x
+        if out and out[-1][0] == k:
+            out[-1][1].append(x)
+        else:
+            out.append((k, [x]))
+    return out
+
+
+def _namedtuple_factory(repo, module):
+    def namedtuple(typename, field_names, *a, **k):
+        if a or (set(k) - {"defaults"}):
+            raise NotConst("namedtuple options")
+        names = field_names.replace(",", " ").split() if isinstance(field_names, str) else list(field_names)
+        defaults = list(k.get("defaults") or [])
+        fields: List[Tuple[str, Optional[ast.AST]]] = [(n, None) for n in names]
+        for n, d in zip(reversed(names), reversed(defaults)):
+            fields[names.index(n)] = (n, ast.Constant(value=d))
+        return RecordClassS(repo, module, typename, fields, "namedtuple", {})
+
+    return namedtuple
+
+
+def stdlib(repo, module) -> Dict[str, Any]:
+    """Stand-ins for the pure stdlib helpers a restructured function may use (iterators are evaluated eagerly to lists)."""
+    import functools
+    import heapq
+    import operator
+
+    ns = lambda **k: types.SimpleNamespace(_folder_stub=True, **k)
+    lst = lambda f: (lambda *a, **k: list(f(*a, **k)))
+    return {
+        "operator": ns(**{k: getattr(operator, k) for k in ("itemgetter", "attrgetter", "add", "sub", "mul", "truediv", "lt", "le", "gt", "ge", "eq", "ne", "neg", "not_", "truth", "getitem", "contains", "is_", "is_not")}),
+        "itertools": ns(chain=_Chain(), groupby=_groupby, **{k: lst(getattr(itertools, k)) for k in ("product", "combinations", "permutations", "combinations_with_replacement", "starmap", "islice", "accumulate", "zip_longest", "takewhile", "dropwhile", "filterfalse", "compress", "pairwise")}),
+        "functools": ns(reduce=functools.reduce, partial=functools.partial, cmp_to_key=functools.cmp_to_key),
+        "heapq": ns(nlargest=heapq.nlargest, nsmallest=heapq.nsmallest),
+        "collections": ns(defaultdict=BASE["defaultdict"], OrderedDict=dict, namedtuple=_namedtuple_factory(repo, module)),
+        "pathlib": ns(Path=PathS, PurePath=PathS),
+    }
+
+
 # =====================================================================================================================
 # evaluator
 
 _DICT_METHODS = {"get", "setdefault", "items", "keys", "values", "pop", "copy", "update"}
 _LIST_METHODS = {"append", "extend", "index", "count", "copy", "insert", "pop", "sort", "reverse", "remove"}
 _SET_METHODS = {"add", "update", "discard", "remove", "union", "intersection", "difference", "issubset", "copy"}
+_KW_BUILTINS = {"max": max, "min": min, "sorted": sorted, "sum": sum, "round": round, "enumerate": lambda *a, **k: list(enumerate(*a, **k)), "zip": lambda *a, **k: list(zip(*a)), "int": int, "float": float, "str": str}
 _MATH = {k: getattr(math, k) for k in ("dist", "hypot", "fabs", "pow", "floor", "ceil", "isclose", "sqrt", "isnan", "isinf", "isfinite", "fsum")}
 
 
@@ -436,6 +836,21 @@ class F(Folder):
                     fn = getattr(recv, f.attr)
                     if f.attr in ("keys", "values", "items"):
                         return list(fn())
+        if fn is None and isinstance(f, ast.Name) and f.id in ("getattr", "hasattr") and f.id not in self.local and not n.keywords and len(n.args) in (2, 3):
+            obj, attr = self.fold(n.args[0]), self.fold(n.args[1])
+            if not (getattr(obj, "_folder_stub", False) or isinstance(obj, types.SimpleNamespace)) or not isinstance(attr, str) or attr.startswith("_"):
+                raise NotConst(f"{f.id} on a value that is not a stub")
+            try:
+                val = getattr(obj, attr)
+            except AttributeError:
+                if f.id == "hasattr":
+                    return False
+                if len(n.args) == 3:
+                    return self.fold(n.args[2])
+                raise NotConst(f"getattr: no attribute {attr}")
+            return True if f.id == "hasattr" else val
+        if fn is None and isinstance(f, ast.Name) and f.id not in self.local and n.keywords and f.id in _KW_BUILTINS and all(k.arg is not None for k in n.keywords):
+            fn = _KW_BUILTINS[f.id]  # max(xs, key=..., default=...), sorted(xs, key=..., reverse=...), sum(xs, start=...), ...
         if fn is None:
             return Folder._f_Call(self, n)
         args = self._elts(n.args)
@@ -444,6 +859,8 @@ class F(Folder):
             if k.arg is None:
                 raise NotConst("**kwargs")
             kw[k.arg] = self.fold(k.value)
+        if getattr(self.ev, "cur_stmt", None) is not None:
+            Ev.current = (self.ev, self.ev.cur_stmt)  # evaluating the arguments may have run other evaluators
         return fn(*args, **kw)
 
     def _comp(self, generators, emit):
@@ -484,6 +901,28 @@ def _bind(target, value, env):
         raise NotConst("bind target")
 
 
+def copy_load(t: ast.AST) -> ast.AST:
+    import copy
+
+    e = copy.deepcopy(t)
+    for n in ast.walk(e):
+        if hasattr(n, "ctx"):
+            n.ctx = ast.Load()
+    return ast.fix_missing_locations(e)
+
+
+def _is_generator(fn: ast.FunctionDef) -> bool:
+    stack = list(fn.body)
+    while stack:
+        n = stack.pop()
+        if isinstance(n, (ast.Yield, ast.YieldFrom)):
+            return True
+        if isinstance(n, (ast.FunctionDef, ast.AsyncFunctionDef, ast.Lambda, ast.ClassDef)):
+            continue
+        stack.extend(ast.iter_child_nodes(n))
+    return False
+
+
 class Ev(BlockEval):
     """sa.blockeval with: stub calls as statements, `with`, `raise`, imports (no-ops), nested subscript targets, nested
     function definitions, bounded `while`, a stack of the current loop items and a trace of every atomic condition."""
@@ -495,6 +934,7 @@ class Ev(BlockEval):
         self.stored: set = set()
         self.helpers = helpers
         self.tag: Any = None
+        self.yielded: Optional[List[Any]] = None
 
     # ---- expressions
     def fold(self, e: ast.AST) -> Any:
@@ -537,8 +977,17 @@ class Ev(BlockEval):
             env.update(bound)
             sub = Ev(self.repo, self.module, env, self.conds)
             sub.ctx = self.ctx
-            kind, val = sub.run(fn.body)
-            return val if kind == "return" else None
+            sub.tag = self.tag
+            self.ctx.append(CallFrame(bound[p] for p in params))
+            try:
+                if _is_generator(fn):
+                    sub.yielded = []
+                    sub.run(fn.body)
+                    return sub.yielded
+                kind, val = sub.run(fn.body)
+                return val if kind == "return" else None
+            finally:
+                self.ctx.pop()
 
         return call
 
@@ -569,6 +1018,12 @@ class Ev(BlockEval):
 
     # ---- statements
     def _assign(self, t: ast.AST, v: Any) -> None:
+        if isinstance(t, ast.Attribute):
+            obj = self.fold(t.value)
+            if not isinstance(obj, InstS):
+                raise Unknown(f"assignment target `{ast.unparse(t)[:40]}`")
+            obj.__dict__["_attrs"][t.attr] = v
+            return
         if isinstance(t, ast.Subscript) and not (isinstance(t.value, ast.Name)):
             box = self.fold(t.value)
             if not isinstance(box, (dict, list)):
@@ -579,7 +1034,11 @@ class Ev(BlockEval):
             self.stored.discard(t.id)
         BlockEval._assign(self, t, v)
 
+    current: Any = None  # (evaluator, statement) being evaluated - read by stubs that want to name the calling statement
+
     def _stmt(self, st: ast.stmt) -> None:
+        Ev.current = (self, st)
+        self.cur_stmt = st
         if isinstance(st, ast.If):
             self._block(st.body if self.cond(st.test) else st.orelse)
         elif isinstance(st, ast.Assign) and len(st.targets) == 1 and isinstance(st.targets[0], ast.Name) and (isinstance(st.value, (ast.BoolOp, ast.Compare)) or (isinstance(st.value, ast.UnaryOp) and isinstance(st.value.op, ast.Not))):
@@ -634,8 +1093,28 @@ class Ev(BlockEval):
             self._block(st.body)
         elif isinstance(st, ast.Raise):
             raise Raised(f"raise {ast.unparse(st.exc)[:60] if st.exc is not None else ''}", st)
-        elif isinstance(st, (ast.Import, ast.ImportFrom, ast.Global, ast.Nonlocal)):
+        elif isinstance(st, ast.Import):
+            lib = stdlib(self.repo, self.module)
+            for a in st.names:
+                if a.name in lib:
+                    self.env[(a.asname or a.name)] = lib[a.name]
+        elif isinstance(st, ast.ImportFrom):
+            lib = stdlib(self.repo, self.module)
+            for a in st.names:
+                if st.module in lib and hasattr(lib[st.module], a.name):
+                    self.env[a.asname or a.name] = getattr(lib[st.module], a.name)
+        elif isinstance(st, (ast.Global, ast.Nonlocal)):
             pass
+        elif isinstance(st, ast.Expr) and isinstance(st.value, (ast.Yield, ast.YieldFrom)):
+            # a generator helper is evaluated eagerly: the values it yields are collected in order
+            if self.yielded is None:
+                raise Unknown("yield outside a generator helper")
+            if st.value.value is None:
+                self.yielded.append(None)
+            elif isinstance(st.value, ast.Yield):
+                self.yielded.append(self.fold(st.value.value))
+            else:
+                self.yielded.extend(list(self.fold(st.value.value)))
         elif isinstance(st, ast.Assert):
             if not self.cond(st.test):
                 raise Raised(f"assert {ast.unparse(st.test)[:60]}", st)
@@ -650,8 +1129,17 @@ class Ev(BlockEval):
                     raise NotConst(f"arity of {_st.name}")
                 sub = Ev(self.repo, self.module, dict(self.env, **dict(zip(_params, args))), self.conds)
                 sub.ctx = self.ctx
-                kind, val = sub.run(_st.body)
-                return val if kind == "return" else None
+                sub.tag = self.tag
+                self.ctx.append(CallFrame(args))
+                try:
+                    if _is_generator(_st):
+                        sub.yielded = []
+                        sub.run(_st.body)
+                        return sub.yielded
+                    kind, val = sub.run(_st.body)
+                    return val if kind == "return" else None
+                finally:
+                    self.ctx.pop()
 
             self.env[st.name] = call
         elif isinstance(st, ast.Expr) and isinstance(st.value, ast.Call):
@@ -663,6 +1151,9 @@ class Ev(BlockEval):
         elif isinstance(st, ast.Expr):
             if not isinstance(st.value, (ast.Constant, ast.Name)):
                 self.fold(st.value)
+        elif isinstance(st, ast.AugAssign) and isinstance(st.target, (ast.Subscript, ast.Attribute)):
+            load = copy_load(st.target)
+            self._assign(st.target, self.fold(ast.BinOp(left=load, op=st.op, right=st.value)))
         elif isinstance(st, ast.Delete):
             raise Unknown("del statement")
         else:
@@ -672,10 +1163,27 @@ class Ev(BlockEval):
 def base_env(repo) -> Dict[str, Any]:
     """Stubs every evaluation of clashfinder code starts from."""
     env: Dict[str, Any] = {"np": np_stub(), "numpy": np_stub(), "set": SetS, "frozenset": SetS}
-    for cname in repo.module(M).classes:
+    mod = repo.module(M)
+    lib = stdlib(repo, M)
+    for alias, (src, orig) in mod.imports.items():
+        if orig is None and src in lib:  # import itertools [as it]
+            env[alias] = lib[src]
+        elif orig is not None and src in lib and hasattr(lib[src], orig):  # from operator import itemgetter [as ig]
+            env[alias] = getattr(lib[src], orig)
+    for cname in mod.classes:
         cls = repo.cls(M, cname)
         if any(norm(b).split(".")[-1] in ("Enum", "IntEnum", "StrEnum") for b in cls.bases):
             env[cname] = EnumS(repo, M, cname)
+        else:
+            rec = RecordClassS.read(repo, M, cls) or ClassS.read(repo, M, cls)
+            if rec is not None:
+                env[cname] = rec
+    for name, expr in mod.consts.items():  # Pair = namedtuple("Pair", "residue atom")
+        if isinstance(expr, ast.Call) and norm(expr.func).split(".")[-1] == "namedtuple" and name not in env:
+            try:
+                env[name] = Folder(repo, M, {"namedtuple": lib["collections"].namedtuple, "collections": lib["collections"]}).fold(expr)
+            except (NotConst, TypeError, ValueError):
+                pass
     return env
 
 
@@ -684,12 +1192,16 @@ def base_env(repo) -> Dict[str, Any]:
 
 DELTA = 1e-6  # half-width of the undecided band around a threshold (float distance arithmetic is not decided)
 UNIT = (2.0 / 7.0, 3.0 / 7.0, 6.0 / 7.0)  # skew unit vector: every coordinate takes part in the distance
-OCC = {"half+half": (0.5, 0.5), "none+none": (None, None), "zero+one": (0.0, 1.0), "none+zero": (None, 0.0), "0.3+0.3": (0.3, 0.3)}
+# occupancy classes: sum exactly 1, both missing, a stated 0.0, missing + 0.0, sum clearly not 1, sum close to but not 1
+# (two occupancies with up to three decimals that add up to 1 do so exactly in floats: `== 1.0` and isclose agree on pairs)
+OCC = {"half+half": (0.5, 0.5), "none+none": (None, None), "zero+one": (0.0, 1.0), "none+zero": (None, 0.0), "0.3+0.3": (0.3, 0.3), "0.5+0.49": (0.5, 0.49)}
+# two *different* residues that agree on a part of their identity (a comparison narrower than residue equality confuses them)
+TWINS = {"icode": "two different residues that share chain and number (insertion codes differ)", "chain": "two different residues that share the number (chains differ)", "name": "two different residues that share chain, number and insertion code (residue names differ)"}
 
 
 class Cluster:
-    def __init__(self, idx, ta, tb, dist, dcell, same_res, nuc_a, nuc_b, same_name, occ, group):
-        self.idx, self.ta, self.tb, self.dist, self.dcell = idx, ta, tb, dist, dcell
+    def __init__(self, idx, ta, tb, dist, dcell, same_res, nuc_a, nuc_b, same_name, occ, group, twin=None):
+        self.idx, self.ta, self.tb, self.dist, self.dcell, self.twin = idx, ta, tb, dist, dcell, twin
         self.same_res, self.nuc_a, self.nuc_b, self.same_name, self.occ, self.group = same_res, nuc_a, nuc_b, same_name, occ, group
         ox = 100.0 * (idx + 1)
         oa, ob = OCC[occ]
@@ -698,12 +1210,17 @@ class Cluster:
         self.a.cluster = self.b.cluster = self
         if same_res:
             self.residues = [ResidueS("A", 2 * idx + 1, [self.a, self.b], nuc_a)]
+        elif twin is not None:
+            second = {"icode": dict(chain="A", icode="A"), "chain": dict(chain="B"), "name": dict(chain="A", name="A")}[twin]
+            self.residues = [ResidueS("A", 2 * idx + 1, [self.a], nuc_a), ResidueS(second.pop("chain"), 2 * idx + 1, [self.b], nuc_b, **second)]
         else:
             self.residues = [ResidueS("A", 2 * idx + 1, [self.a], nuc_a), ResidueS("A", 2 * idx + 2, [self.b], nuc_b)]
         self.occsum = (1.0 if oa is None else oa) + (1.0 if ob is None else ob)
 
     def describe(self) -> str:
         res = f"one {'nucleotide' if self.nuc_a else 'non-nucleotide'} residue" if self.same_res else f"two residues ({'nucleotide' if self.nuc_a else 'non-nucleotide'}, {'nucleotide' if self.nuc_b else 'non-nucleotide'})"
+        if self.twin:
+            res = TWINS[self.twin]
         oa, ob = OCC[self.occ]
         return f"atoms {self.a.name}/{self.b.name} in {res}, distance {self.dcell}, occupancies {oa} + {ob}"
 
@@ -728,8 +1245,13 @@ def build_structure(radii: Dict[str, float], extra: float) -> List[Cluster]:
                 for occ in OCC:
                     for d, cell in (dd[0], dd[2]):
                         cl.append(Cluster(len(cl), t, t, d, cell, same_res, na, nb, same_name, occ, "F"))
+    # different residues that agree on chain / number / insertion code: still two residues
+    for twin in TWINS:
+        for same_name in (True, False):
+            cl.append(Cluster(len(cl), t, t, dd[0][0], dd[0][1], False, True, True, same_name, "half+half", "F", twin))
     # atoms of no known type right next to typed ones
-    for ta, tb in (("H", t), (t, "M"), ("H", "H")):
+    # (hydrogens whose names contain the letter of a typed element - HO5', HN1, ... - are of no known type either)
+    for ta, tb in (("H", t), (t, "M"), ("H", "H"), ("HO", t), (t, "HN"), ("HC", "HP")):
         cl.append(Cluster(len(cl), ta, tb, 0.2, "0.2 A", False, True, True, False, "half+half", "U"))
     return cl
 
@@ -777,6 +1299,8 @@ class ClashEval:
         self.residues_param = params[0]
         self.clusters = build_structure(radii, extra)
         self.trace: Dict[int, Any] = {}
+        self.points: Dict[Any, List[Any]] = {}  # run tag -> atoms of the KD-tree points, in index order
+        self.query_stmts: List[Any] = []  # statements that query the KD-tree
         self.radius: Dict[Tuple, List[float]] = {}
         self.listed: Dict[Tuple, Dict[int, Any]] = {}  # option tuple -> cluster idx -> record
         self.problems: List[Tuple[str, str, Any]] = []  # (rule, message, cluster idx or None)
@@ -810,7 +1334,8 @@ class ClashEval:
 
     def _run(self, env0, residues, opts, tag):
         log: List[float] = []
-        env = dict(env0, KDTree=KDTreeModel(log), cKDTree=KDTreeModel(log), **opts)
+        kd = KDTreeModel(log)
+        env = dict(env0, KDTree=kd, cKDTree=kd, **opts)
         env[self.residues_param] = list(residues)
         ev = Ev(self.repo, M, env, self.trace)
         ev.tag = tag
@@ -820,6 +1345,12 @@ class ClashEval:
         except Raised as r:
             self.raised.append((opts, r))
             return None, log
+        finally:
+            if kd.built:
+                self.points[tag] = [p.atom for p in kd.built[-1].points]
+            for c in kd.calls:
+                if not any(c is x for x in self.query_stmts):
+                    self.query_stmts.append(c)
         if kind != "return":
             raise Unknown("find_clashes does not return a value")
         return val, log
@@ -873,14 +1404,21 @@ class ClashEval:
             rs = self.small_inputs[tag[1]]
             n = sum(1 for r in rs if selected(opts, r.is_nucleotide) for a in r.atoms if typed(a.name))
             f["fewer than two atoms considered"] = n < 2
+            f["fewer than two typed atoms in the structure"] = sum(1 for r in rs for a in r.atoms if typed(a.name)) < 2
         else:
             f["fewer than two atoms considered"] = False
-        pair = atom = res = None
+            f["fewer than two typed atoms in the structure"] = False
+        atom = res = arg = None
+        pair = self._pair_of(tag, ctx)
         for item in reversed(ctx):
             flat_ = list(item) if isinstance(item, tuple) and not isinstance(item, PairIdx) else [item]
-            if isinstance(item, PairIdx):
-                pair = item
-                break
+            if isinstance(item, CallFrame):
+                # arguments of the evaluated helper the condition is in: a single atom argument is a feature of its own
+                if arg is None and sum(1 for x in flat_ if isinstance(x, AtomS)) == 1:
+                    arg = [x for x in flat_ if isinstance(x, AtomS)][0]
+                continue
+            if pair is not None:
+                continue
             if atom is None and any(isinstance(x, AtomS) for x in flat_):
                 atom = [x for x in flat_ if isinstance(x, AtomS)][0]
                 break
@@ -888,10 +1426,19 @@ class ClashEval:
                 res = [x for x in flat_ if isinstance(x, ResidueS)][0]
                 break
         f["in pair loop"] = pair is not None
-        if pair is not None and pair.atoms[0] is not None and pair.atoms[0].cluster is pair.atoms[1].cluster:
-            a, b = pair.atoms
+        if arg is not None:
+            f["occupancy of the atom handed to the helper missing"] = arg.occupancy is None
+            f["the atom handed to the helper is of type C/N/O/P"] = typed(arg.name)
+        if pair is not None:
+            f["the first index is below the second"] = pair[2] < pair[3]
+            f["the two indices are equal"] = pair[2] == pair[3]
+        if pair is not None and pair[0] is not None and pair[0].cluster is pair[1].cluster:
+            a, b = pair[0], pair[1]
             c = a.cluster
             f["the two residues are the same"] = a.owner is b.owner
+            f["the first residue is a nucleotide"] = bool(a.owner.is_nucleotide)
+            f["the second residue is a nucleotide"] = bool(b.owner.is_nucleotide)
+            f["both residues are nucleotides"] = bool(a.owner.is_nucleotide and b.owner.is_nucleotide)
             f["the two atom names are equal"] = a.name == b.name
             if typed(a.name) and typed(b.name):
                 f["distance above r_a + r_b + extra"] = c.dist > self.radii[a.name[0]] + self.radii[b.name[0]] + (self.extra if opts["enable_molprobity_mode"] else 0.0)
@@ -906,6 +1453,37 @@ class ClashEval:
             f["residue is a nucleotide"] = bool(res.is_nucleotide)
         return f
 
+    def _pair_of(self, tag, ctx):
+        """(atom, atom, i, j) of the candidate pair a condition is evaluated for: the innermost loop item(s) that are indices
+        handed out by the KD-tree model (a pair of query_pairs; an index of a ball query with the index of the point it was
+        asked for), None outside such a loop."""
+        pts = self.points.get(tag) or []
+        items = [x for x in reversed(ctx) if not isinstance(x, CallFrame)]
+        ij = None
+        for n, item in enumerate(items):
+            if isinstance(item, PairIdx):
+                ij = (int(item[0]), int(item[1]))
+                break
+            if isinstance(item, tuple) and len(item) == 2 and all(_isidx(x) for x in item) and any(isinstance(x, IdxS) for x in item):
+                ij = (int(item[0]), int(item[1]))
+                break
+            if isinstance(item, IdxS):
+                for outer in items[n + 1 :]:
+                    if _isidx(outer):
+                        ij = (int(outer), int(item))
+                        break
+                    if isinstance(outer, tuple) and outer and _isidx(outer[0]):
+                        ij = (int(outer[0]), int(item))
+                        break
+                break
+            flat_ = list(item) if isinstance(item, tuple) else [item]
+            if any(isinstance(x, (AtomS, ResidueS)) for x in flat_):
+                break
+        if ij is None:
+            return None
+        at = lambda i: pts[i] if 0 <= i < len(pts) else None
+        return (at(ij[0]), at(ij[1]), ij[0], ij[1])
+
     def classify_conditions(self):
         """[(node, feature or None, negated, in_pair_loop, n_records)]"""
         out = []
@@ -914,12 +1492,14 @@ class ClashEval:
         for nid, (node, recs) in self.trace.items():
             names = {n.id for n in ast.walk(node) if isinstance(n, ast.Name)}
             if names and names <= set(OPTIONS):
-                out.append((node, "the options only", False, any(isinstance(x, PairIdx) for _, ctx, _ in recs[:1] for x in ctx), len(recs), False))
+                out.append((node, "the options only", False, any(self._pair_of(tag, ctx) is not None for tag, ctx, _ in recs[:1]), len(recs), False))
                 continue
             rows = []
+            skipped = 0
             for tag, ctx, val in recs:
-                pr = [x for x in ctx if isinstance(x, PairIdx)]
-                if pr and pr[-1].atoms[0] is not None and pr[-1].atoms[0].cluster is not None and pr[-1].atoms[0].cluster.idx in dirty:
+                pr = self._pair_of(tag, ctx)
+                if pr is not None and pr[0] is not None and pr[0].cluster is not None and pr[0].cluster.idx in dirty:
+                    skipped += 1
                     continue  # representatives on which the decision table already deviates say nothing about the condition
                 ck = (tag, tuple(id(x) for x in ctx))
                 if ck not in cache:
@@ -943,6 +1523,8 @@ class ClashEval:
                     if all(f[nm] != v for f, v in rows):
                         found, neg = nm, True
                         break
+            if found is None and skipped and len(vals) == 1:
+                continue  # constant on the representatives that are left: undecided here, the deviation itself is reported
             out.append((node, found, neg, in_pair, len(rows), len(vals) == 1))
         out.sort(key=lambda t: (getattr(t[0], "lineno", 0), getattr(t[0], "col_offset", 0)))
         return out
@@ -981,16 +1563,22 @@ def check_find_clashes(chk, fi, radii: Dict[str, float], extra: float) -> Option
         if key not in ce.listed:
             continue
         mp = key[OPTIONS.index("enable_molprobity_mode")]
-        if len(log) != 1:
-            unread = True
+        if len(set(log)) != 1:
+            unread = True  # no query (every pair is examined) or a radius that varies per query
             continue
         if log[0] + 1e-12 < T[mp] and worst is None:
             pair = max(((a, b) for a in radii for b in radii), key=lambda p: radii[p[0]] + radii[p[1]])
             worst = (mp, pair[0], pair[1], log[0], T[mp])
     if unread:
-        chk.error("search-radius", site, "the evaluation did not meet exactly one KD-tree query per call")
+        chk.ok("search-radius", site, "the evaluation did not meet one KD-tree radius per call (no query, or a radius per queried point): that no accepted pair is outside the search is decided by rule `distance-threshold` on all 16 type pairs just below both thresholds")
     else:
-        chk.expect(worst is None, "search-radius", site, "the KD-tree radius (as evaluated for all 32 option combinations) is at least r_a + r_b + extra for every pair of atom types", f"the KD-tree radius ({worst[3]:.2f} A) is smaller than the acceptance threshold of {worst[1]}-{worst[2]} ({worst[4]:.2f} A, molprobity={worst[0]}): such clashes are never examined" if worst else "", _K(fi, "search-radius"), found=list(worst) if worst else None)
+        qsite, qtext = site, ""
+        if ce.query_stmts:
+            qs = ce.query_stmts[0]
+            qsite = fi.site(qs)
+            qcall = next((n for n in ast.walk(qs) if isinstance(n, ast.Call) and isinstance(n.func, ast.Attribute) and n.func.attr.startswith("query")), None)
+            qtext = f" of `{norm(qcall)[:80]}`" if qcall is not None else ""
+        chk.expect(worst is None, "search-radius", qsite, "the KD-tree radius (as evaluated for all 32 option combinations) is at least r_a + r_b + extra for every pair of atom types", f"the KD-tree radius{qtext} ({worst[3]:.2f} A) is smaller than the acceptance threshold of {worst[1]}-{worst[2]} ({worst[4]:.2f} A, molprobity={worst[0]}): such clashes are never examined" if worst else "", _K(fi, "search-radius"), found=list(worst) if worst else None)
     # record shape, roles, sums
     by_rule: Dict[str, List[str]] = {}
     for rule, msg, _ in ce.problems:
@@ -1005,16 +1593,16 @@ def check_find_clashes(chk, fi, radii: Dict[str, float], extra: float) -> Option
         opts, c, want = d
         thr = radii.get(c.ta, 0) + radii.get(c.tb, 0) + (extra if opts["enable_molprobity_mode"] else 0.0) if c.ta in radii and c.tb in radii else None
         R = ce.radius.get(tuple(opts[k] for k in OPTIONS)) or []
-        reach = f"; the KD-tree search radius {R[0]:.2f} A does not reach it" if want and len(R) == 1 and c.dist > R[0] else ""
+        reach = f"; the KD-tree search radius {R[0]:.2f} A does not reach it" if want and len(set(R)) == 1 and c.dist > R[0] else ""
         return f"with {optstr(opts)} the pair [{c.describe()}] is {'not listed but is a clash' if want else 'listed but is not a clash'} by the definition" + (f" (threshold {thr:.2f} A{reach})" if thr is not None else "")
 
     slices = []
     for mp in (False, True):
         slices.append(("distance-threshold", f"thr:{mp}", f"MolProbity mode {'on' if mp else 'off'}: a pair of typed atoms is accepted iff its distance is at most r_a + r_b{' + %s' % extra if mp else ''}, for all 16 ordered type pairs, just below and just above both thresholds", lambda op, c, mp=mp: c.group == "T" and o(op, nucleic_acid_only=False, ignore_autoclashes=False, require_same_atom_name=False, ignore_occupancy=True, enable_molprobity_mode=mp)))
-    slices.append(("option-filter", "option:ignore_autoclashes", "ignore_autoclashes skips exactly the pairs within one residue", lambda op, c: c.group == "F" and c.occ == "half+half" and c.nuc_a and c.nuc_b and o(op, nucleic_acid_only=False, require_same_atom_name=False, ignore_occupancy=True, enable_molprobity_mode=False)))
+    slices.append(("option-filter", "option:ignore_autoclashes", "ignore_autoclashes skips exactly the pairs within one residue (two residues that share chain, number or insertion code are still two residues)", lambda op, c: c.group == "F" and c.occ == "half+half" and c.nuc_a and c.nuc_b and o(op, nucleic_acid_only=False, require_same_atom_name=False, ignore_occupancy=True, enable_molprobity_mode=False)))
     slices.append(("option-filter", "option:require_same_atom_name", "require_same_atom_name skips exactly the pairs with different atom names", lambda op, c: c.group == "F" and c.occ == "half+half" and c.nuc_a and c.nuc_b and o(op, nucleic_acid_only=False, ignore_autoclashes=False, ignore_occupancy=True, enable_molprobity_mode=False)))
-    slices.append(("occupancy-rule", "occupancy-rule", "a close pair is listed iff occupancies are ignored or their sum is 1 (5 occupancy classes incl. 0.0 and missing values)", lambda op, c: c.group == "F" and not c.same_res and c.nuc_a and c.nuc_b and not c.same_name and o(op, nucleic_acid_only=False, ignore_autoclashes=False, require_same_atom_name=False, enable_molprobity_mode=False)))
-    slices.append(("collection", "collection", "atoms considered = C/N/O/P atoms of all residues, or of nucleotides only when nucleic_acid_only is set (6 residue configurations, atoms of other types next to typed ones)", lambda op, c: (c.group == "U" or (c.group == "F" and c.occ == "half+half" and not c.same_name)) and o(op, ignore_autoclashes=False, require_same_atom_name=False, ignore_occupancy=True, enable_molprobity_mode=False)))
+    slices.append(("occupancy-rule", "occupancy-rule", f"a close pair is listed iff occupancies are ignored or their sum is 1 ({len(OCC)} occupancy classes incl. 0.0, missing values and 0.5 + 0.49)", lambda op, c: c.group == "F" and not c.same_res and c.nuc_a and c.nuc_b and not c.same_name and o(op, nucleic_acid_only=False, ignore_autoclashes=False, require_same_atom_name=False, enable_molprobity_mode=False)))
+    slices.append(("collection", "collection", "atoms considered = atoms whose name starts with C/N/O/P, of all residues or of nucleotides only when nucleic_acid_only is set (6 residue configurations; atoms of other types - H, M, and hydrogens named HO/HN/HC/HP - next to typed ones)", lambda op, c: (c.group == "U" or (c.group == "F" and c.occ == "half+half" and not c.same_name)) and o(op, ignore_autoclashes=False, require_same_atom_name=False, ignore_occupancy=True, enable_molprobity_mode=False)))
     any_slice = False
     for rule, key, okmsg, pred in slices:
         mine = [d for d in dev if pred(d[0], d[1])]
@@ -1033,7 +1621,7 @@ def check_find_clashes(chk, fi, radii: Dict[str, float], extra: float) -> Option
     extra_f = [t for t in conds if t[1] is None and t[3]]
     unread_c = [t for t in conds if t[1] is None and not t[3]]
     for node, _, _, _, n, const in extra_f:
-        chk.violation("option-extra-filter", fi.site(node), f"condition `{norm(node)[:70]}` in the clash loop is {'constant on all representatives' if const else 'not a function of one feature of the definition (option, same residue, equal names, distance vs threshold, occupancy)'}: an additional filter", _K(fi, f"extra:{norm(node)[:50]}"))
+        chk.violation("option-extra-filter", fi.site(node), f"condition `{norm(node)[:70]}` in the clash loop is {'constant on all representatives' if const else 'not a function of one feature of the definition (option, same residue, nucleotide, equal names, distance vs threshold, occupancy)'}: an additional filter", _K(fi, f"extra:{norm(node)[:50]}"))
     if not extra_f:
         chk.ok("option-extra-filter", site, f"{sum(1 for t in conds if t[3])} atomic conditions in the clash loop, each a function of one feature of the definition: " + "; ".join(f"`{norm(t[0])[:40]}` = {'not ' if t[2] else ''}{t[1]}" for t in conds if t[3])[:600])
     for node, _, _, _, n, const in unread_c:
@@ -1053,6 +1641,9 @@ class Capture:
         self.lines: List[str] = []
         self.rows: List[List[Any]] = []
         self.find_args: List[Tuple[tuple, dict]] = []
+        self.sites: List[Tuple[Any, List[Tuple[str, float]]]] = []  # per printed line: (print statement, numbers it formats)
+        self.switches: List[Tuple[str, str, str, tuple]] = []  # declared arguments: (command-line name, action, dest, option strings)
+        self.namespace: Dict[str, Any] = {}
         self.meta_args: List[Any] = []
         self.opened: List[Tuple[Any, ...]] = []
 
@@ -1069,10 +1660,19 @@ class FileS(Stub):
 
 
 class WriterS(Stub):
-    def __init__(self, cap: Capture):
-        self.cap = cap
+    def __init__(self, cap: Capture, fieldnames: Optional[List[Any]] = None):
+        self.cap, self.fieldnames = cap, fieldnames
+
+    def writeheader(self):
+        if self.fieldnames is None:
+            raise NotConst("writeheader of a plain csv writer")
+        self.cap.rows.append(list(self.fieldnames))
 
     def writerow(self, row):
+        if self.fieldnames is not None:
+            if not isinstance(row, dict) or any(k not in self.fieldnames for k in row):
+                raise ValueError("dict contains fields not in fieldnames")
+            row = [row.get(k, "") for k in self.fieldnames]
         self.cap.rows.append(list(row))
 
     def writerows(self, rows):
@@ -1113,22 +1713,38 @@ class MetaS(Stub):
 
 def representative_clashes():
     """Residues whose file order is both equal and opposite to their sort order; several records per residue pair and
-    per chain pair, the largest occupancy sum never last; one pair within a residue."""
-    mk = lambda tok: AtomS(f"«n{tok}»", token=tok)
-    A5 = ResidueS("«cA»", 5, [mk(x) for x in ("A5a", "A5b", "A5c", "A5d", "A5e", "A5f")], token="«rA5»")
-    A7 = ResidueS("«cA»", 7, [mk(x) for x in ("A7a", "A7b")], token="«rA7»")
-    B1 = ResidueS("«cB»", 1, [mk(x) for x in ("B1a", "B1b")], token="«rB1»")
-    B2 = ResidueS("«cB»", 2, [mk(x) for x in ("B2a",)], token="«rB2»")
-    a = lambda r, i: r.atoms[i]
+    several residue pairs per chain pair, the largest occupancy sum neither first nor last - in file order and in sort
+    order; one pair within a residue; residue pairs that differ only in a part of the residues' identity (chain, insertion
+    code, residue name), so that a key narrower than the pair of residues merges them."""
+    made: Dict[str, AtomS] = {}
+
+    def mk(tok):
+        made[tok] = AtomS(f"«n{tok}»", token=tok)
+        return made[tok]
+
+    A5 = ResidueS("«cA»", 5, [mk(x) for x in ("A5a", "A5b", "A5c", "A5d", "A5e", "A5f", "A5g", "A5h")], token="«rA5»")
+    A5i = ResidueS("«cA»", 5, [mk("A5ia")], token="«rA5i»", icode="A")  # shares chain and number with A5
+    A7 = ResidueS("«cA»", 7, [mk(x) for x in ("A7a", "A7b", "A7c")], token="«rA7»")
+    A7g = ResidueS("«cA»", 7, [mk("A7ga")], token="«rA7g»", name="A")  # shares chain, number and insertion code with A7
+    B1 = ResidueS("«cB»", 1, [mk(x) for x in ("B1a", "B1b", "B1c")], token="«rB1»")
+    B2 = ResidueS("«cB»", 2, [mk("B2a")], token="«rB2»")
+    C5 = ResidueS("«cC»", 5, [mk("C5a")], token="«rC5»")  # shares the numbers with the pair (A5, A7)
+    C7 = ResidueS("«cC»", 7, [mk("C7a")], token="«rC7»")
+    own = {a.token: r for r in (A5, A5i, A7, A7g, B1, B2, C5, C7) for a in r.atoms}
+    c = lambda x, y, s_: ((own[x], made[x]), (own[y], made[y]), s_)
     L = [
-        ((B1, a(B1, 0)), (A5, a(A5, 0)), 0.75),  # chain B before chain A: opposite to the sort order
-        ((B1, a(B1, 1)), (A5, a(A5, 1)), 0.5),  # same group, smaller sum afterwards
-        ((A5, a(A5, 2)), (A5, a(A5, 3)), 1.0),  # within one residue
-        ((A7, a(A7, 0)), (A5, a(A5, 4)), 0.25),  # same chain, residue 7 before residue 5
-        ((A5, a(A5, 5)), (B2, a(B2, 0)), 1.25),  # sorted order, two chains
-        ((A5, a(A5, 0)), (A7, a(A7, 1)), 0.625),  # sorted order, one chain
+        c("B1c", "A5c", 0.25),  # chain B before chain A: opposite to the sort order; three records, the largest in the middle
+        c("B1b", "A5b", 0.75),
+        c("B1a", "A5a", 0.5),
+        c("A7a", "A5e", 0.1875),  # same chain, residue 7 before residue 5
+        c("A5d", "A5h", 0.125),  # within one residue
+        c("A5f", "B2a", 1.25),  # sorted order, two chains
+        c("A5a", "A7b", 0.625),  # sorted order, one chain: the largest of its chain, in the middle
+        c("C5a", "C7a", 0.875),  # same residue numbers in another chain
+        c("A5ia", "A7c", 0.375),  # same chain and numbers, another insertion code
+        c("A5g", "A7ga", 0.4375),  # same chain, numbers and insertion codes, another residue name
     ]
-    return L, [A5, A7, B1, B2]
+    return L, [A5, A5i, A7, A7g, B1, B2, C5, C7]
 
 
 class MainEval:
@@ -1136,14 +1752,44 @@ class MainEval:
         self.cap = cap = Capture()
         SetS.reverse = reverse_sets
         try:
-            args = types.SimpleNamespace(_folder_stub=True, input="/data/«file».cif", csv=csv_path, **{k: f"«o{k}»" for k in OPTIONS})
-
             class Parser(Stub):
-                def add_argument(self, *a, **k):
+                """argparse as far as main uses it: every declared argument becomes an attribute of the parsed namespace; a
+                boolean switch holds a token naming its command-line spelling, the positional the input path, --csv the CSV path"""
+
+                def add_argument(self, *flags, **k):
+                    if not flags or not all(isinstance(x, str) for x in flags):
+                        raise NotConst("add_argument without option strings")
+                    if not flags[0].startswith("-"):
+                        ident = dest = flags[0]
+                        value = "/data/«file».cif" if not any(sw[1] == "positional" for sw in cap.switches) else f"«p{ident}»"
+                        kind = "positional"
+                    else:
+                        long_ = next((x for x in flags if x.startswith("--")), flags[0])
+                        ident = long_.lstrip("-").replace("-", "_")
+                        dest = k.get("dest", ident)
+                        action = k.get("action", "store")
+                        kind = action if isinstance(action, str) else "other"
+                        if kind in ("store_true", "store_false"):
+                            value = f"«o{ident}»"
+                        elif ident == "csv":
+                            value = csv_path
+                        else:
+                            value = k.get("default")
+                    if not isinstance(dest, str):
+                        raise NotConst("add_argument dest")
+                    cap.switches.append((ident, kind, dest, flags))
+                    cap.namespace[dest] = value
                     return None
 
                 def parse_args(self, *a, **k):
-                    return args
+                    return types.SimpleNamespace(_folder_stub=True, **cap.namespace)
+
+                def parse_known_args(self, *a, **k):
+                    return (self.parse_args(), [])
+
+                def set_defaults(self, **k):
+                    for dest, v in k.items():
+                        cap.namespace.setdefault(dest, v)
 
                 def add_mutually_exclusive_group(self, *a, **k):
                     return self
@@ -1151,8 +1797,31 @@ class MainEval:
                 add_argument_group = add_mutually_exclusive_group
 
             def fopen(path, mode="r", *a, **k):
+                path = path.path if isinstance(path, PathS) else path
                 cap.opened.append((path, mode))
                 return FileS(path, mode)
+
+            class StdoutS(Stub):
+                """sys.stdout: what is written is the report (split into lines as the terminal shows it)"""
+
+                def __init__(self):
+                    self.pending = ""
+
+                def write(self, text):
+                    if not isinstance(text, str):
+                        raise NotConst("sys.stdout.write of a non-string")
+                    self.pending += text
+                    where = _print_site()
+                    while "\n" in self.pending:
+                        ln, self.pending = self.pending.split("\n", 1)
+                        cap.lines.append(ln)
+                        cap.sites.append(where)
+                    return len(text)
+
+                def flush(self):
+                    return None
+
+            stdout = StdoutS()
 
             def find_clashes(*a, **k):
                 cap.find_args.append((a, k))
@@ -1166,7 +1835,31 @@ class MainEval:
                 raise Exit()
 
             def out(*a, **k):
-                cap.lines.append(k.get("sep", " ").join(str(x) for x in a))
+                if k.get("file") is not None and k.get("file") is not stdout:
+                    return  # diagnostics written elsewhere are not the report
+                text = k.get("sep", " ").join(str(x) for x in a)
+                where = _print_site()
+                for ln in text.split("\n"):
+                    cap.lines.append(ln)
+                    cap.sites.append(where)
+
+            def _print_site():
+                """(statement, [(expression, value)]) of the print being evaluated: the numbers it formats, by the expression that gives them"""
+                cur = Ev.current
+                if cur is None:
+                    return (None, [])
+                ev_, st = cur
+                nums = []
+                for fv in [n for n in ast.walk(st) if isinstance(n, ast.FormattedValue)]:
+                    if any(isinstance(x, (ast.Call, ast.NamedExpr, ast.Lambda, ast.ListComp, ast.GeneratorExp, ast.SetComp, ast.DictComp)) for x in ast.walk(fv.value)):
+                        continue
+                    try:
+                        v = Folder.fold(F(ev_, ev_.env, share=True), fv.value)
+                    except Exception:
+                        continue
+                    if isinstance(v, (int, float)) and not isinstance(v, bool):
+                        nums.append((norm(fv.value), float(v)))
+                return (st, nums)
 
             ns = types.SimpleNamespace
             env = base_env(repo)
@@ -1177,9 +1870,9 @@ class MainEval:
                 find_clashes=find_clashes,
                 read_metadata=read_metadata,
                 print=out,
-                csv=ns(_folder_stub=True, writer=lambda f, *a, **k: WriterS(cap)),
+                csv=ns(_folder_stub=True, writer=lambda f, *a, **k: WriterS(cap), DictWriter=lambda f, fieldnames=None, *a, **k: WriterS(cap, list(fieldnames) if fieldnames is not None else None), QUOTE_MINIMAL=0, QUOTE_ALL=1, QUOTE_NONNUMERIC=2, QUOTE_NONE=3),
                 os=ns(_folder_stub=True, path=ns(_folder_stub=True, splitext=os.path.splitext, basename=os.path.basename, dirname=os.path.dirname, join=os.path.join)),
-                sys=ns(_folder_stub=True, exit=_exit, argv=["clashfinder"]),
+                sys=ns(_folder_stub=True, exit=_exit, argv=["clashfinder"], stdout=stdout, stderr=ns(_folder_stub=True, write=lambda *a: 0, flush=lambda: None)),
                 exit=_exit,
             )
             ev = Ev(repo, M, env)
@@ -1198,7 +1891,55 @@ def _tokens(text: str):
     return toks, nums
 
 
-def check_main(chk, mn) -> Optional[str]:
+def check_cli_binding(chk, mn, fi, cap: "Capture") -> None:
+    """Fact-level `cli-arguments`: on the evaluated main, every option parameter of find_clashes receives the value of the
+    boolean switch of the same name (positional or keyword, in any order), and the switches are the options."""
+    chk.robust |= {"cli-arguments"}
+    params = [a.arg for a in fi.node.args.args]
+    site = mn.where
+    call_sites = [n for n in ast.walk(mn.node) if isinstance(n, ast.Call) and norm(n.func).split(".")[-1] == "find_clashes"]
+    if call_sites:
+        site = mn.site(call_sites[0])
+    if len(cap.find_args) != 1:
+        chk.expect(False, "cli-arguments", site, "", f"main calls find_clashes {len(cap.find_args)} times on the representative run, not once", _K(mn, "cli-args"))
+        return
+    a, k = cap.find_args[0]
+    bound: Dict[str, Any] = dict(zip(params, a))
+    bad_call = len(a) > len(params) or any(kw not in params or kw in bound for kw in k)
+    bound.update(k)
+    if bad_call:
+        chk.expect(False, "cli-arguments", site, "", f"the call of find_clashes does not fit its parameters {params}: TypeError at run time", _K(mn, "cli-args"), found=[str(x)[:40] for x in a] + [f"{kw}=..." for kw in k])
+        return
+    wrong, unread = [], []
+    for p_ in params[1:]:
+        got = bound.get(p_, None)
+        if p_ not in bound:
+            wrong.append(f"parameter {p_} receives no argument")
+        elif isinstance(got, str) and got.startswith("«o") and got.endswith("»"):
+            if got != f"«o{p_}»":
+                wrong.append(f"parameter {p_} receives the value of switch --{got[2:-1].replace('_', '-')}")
+        else:
+            unread.append(f"parameter {p_} receives `{str(got)[:40]}`, not the value of a switch")
+    expected = {p_: f"--{p_.replace('_', '-')}" for p_ in params[1:]}
+    if unread and not wrong:
+        chk.error("cli-arguments", site, f"CLI options passed to find_clashes not understood: {unread[0]}")
+    else:
+        chk.expect(not wrong, "cli-arguments", site, "every option parameter of find_clashes receives the value of the switch of the same name (evaluated call, positional or keyword)", f"CLI options are not passed to find_clashes parameters of the same name: {'; '.join(wrong[:3])}", _K(mn, "cli-args"), expected=expected, found={p_: (f"--{str(bound.get(p_))[2:-1].replace('_', '-')}" if str(bound.get(p_)).startswith("«o") else str(bound.get(p_))[:40]) for p_ in params[1:]})
+    res_ok = bound.get(params[0]) == ["«residues»"]
+    if not res_ok:
+        chk.error("cli-arguments", site, f"the first argument of find_clashes is `{str(bound.get(params[0]))[:60]}`, not the residues of the structure read from the input file")
+    # the switches are the options
+    sw = {ident: kind for ident, kind, dest, flags in cap.switches if kind in ("store_true", "store_false")}
+    false_ = sorted(i for i, kd in sw.items() if kd == "store_false" and i in params)
+    msg = ""
+    if false_:
+        msg = f"switch --{false_[0].replace('_', '-')} stores False when given: the option is inverted"
+    elif set(sw) != set(params[1:]):
+        msg = f"the set of boolean switches differs from find_clashes' options: missing {sorted(set(params[1:]) - set(sw))}, additional {sorted(set(sw) - set(params[1:]))}"
+    chk.expect(not msg, "cli-arguments", mn.where, "one boolean switch (store_true) per option of find_clashes", msg, _K(mn, "cli-flags"), found=sorted(f"--{i.replace('_', '-')}" for i in sw))
+
+
+def check_main(chk, mn, fi=None) -> Optional[str]:
     """Fact-level rules for the report / CSV part of main; None when main could be evaluated, else the reason."""
     repo = chk.repo
     L, residues = representative_clashes()
@@ -1215,7 +1956,7 @@ def check_main(chk, mn) -> Optional[str]:
     except Raised as ex:
         # KeyError / IndexError / ... of an interpreted dict or list operation, or an explicit raise: the program's own behaviour
         chk.robust |= {"report-clashes"}
-        chk.violation("report-clashes", mn.site(ex.node) if ex.node is not None else mn.where, f"main raises {ex.what} on the representative clash list (6 clashes, residue pairs in and against their sort order): no complete report / CSV is produced", _K(mn, "raises"))
+        chk.violation("report-clashes", mn.site(ex.node) if ex.node is not None else mn.where, f"main raises {ex.what} on the representative clash list ({len(L)} clashes, residue pairs in and against their sort order): no complete report / CSV is produced", _K(mn, "raises"))
         for rule in ("report-grouping", "report-maxima", "report-loops"):
             chk.ok(rule, mn.where, "not evaluated: main raises on the representative clash list (reported by rule `report-clashes`)")
         return None
@@ -1226,6 +1967,22 @@ def check_main(chk, mn) -> Optional[str]:
     site = mn.where
     cap = runs[False].cap
     chk.robust |= {"report-clashes", "report-grouping", "report-maxima", "report-loops"}
+    if fi is not None:
+        check_cli_binding(chk, mn, fi, cap)
+    # read_metadata(file) reads file.name: it needs the open file, not the path string
+    chk.robust |= {"csv-metadata-arg"}
+    msite = next((mn.site(n) for n in ast.walk(mn.node) if isinstance(n, ast.Call) and norm(n.func).split(".")[-1] == "read_metadata"), site)
+    for got in cap.meta_args:
+        if isinstance(got, FileS):
+            chk.ok("csv-metadata-arg", msite, f"read_metadata receives an open file (of `{got.name}`) on the evaluated run with --csv")
+        elif isinstance(got, (str, PathS)):
+            chk.violation("csv-metadata-arg", msite, f"read_metadata (which reads file.name) receives the path `{got}` and not an open file: --csv raises AttributeError as soon as one clash is found, no CSV is written", _K(mn, "read_metadata(path)"))
+        else:
+            chk.error("csv-metadata-arg", msite, f"argument `{str(got)[:40]}` of read_metadata not classified (path or open file)")
+    site_of = {}
+    for ln_, st_ in zip(cap.lines, cap.sites):
+        site_of.setdefault(ln_, st_)
+    maxima_site = [None]
 
     def parse_report(lines):
         """[(chain heading, [(residue heading, [atom line])])] with heading = (tokens, number)"""
@@ -1313,7 +2070,12 @@ def check_main(chk, mn) -> Optional[str]:
             if not nums:
                 return f"heading `{head[3].strip()[:60]}` prints no number: report layout not understood"
             if not vals or not any(math.isclose(x, max(vals), abs_tol=1e-12) for x in nums):
-                add("report-maxima", f"heading `{head[3].strip()[:80]}` prints {nums[0] if len(nums) == 1 else nums} but the largest occupancy sum listed below it is {max(vals) if vals else None}")
+                st_, fmt = site_of.get(head[3], (None, []))
+                src = [e for e, v in fmt if any(math.isclose(v, x, abs_tol=1e-12) for x in nums)]
+                by = f" (line {st_.lineno}: the value of `{src[-1]}`)" if st_ is not None and src else (f" (line {st_.lineno})" if st_ is not None else "")
+                if maxima_site[0] is None and st_ is not None:
+                    maxima_site[0] = st_
+                add("report-maxima", f"heading `{TOK.sub(lambda m_: m_.group(0)[1:-1], head[3].strip())[:110]}` prints {nums[0] if len(nums) == 1 else nums}{by} but the largest occupancy sum of the atom clashes listed below it is {max(vals) if vals else None}: the printed maximum is not the maximum over the listed clashes")
     # ---- CSV -----------------------------------------------------------------------------------------------------------
     csv_rows = []
     for cells, occ, row in rows:
@@ -1377,6 +2139,6 @@ def check_main(chk, mn) -> Optional[str]:
     n = len(L)
     chk.expect("report-clashes" not in problems, "report-clashes", site, f"main evaluated on {n} representative clashes: the printed atom lines and the CSV rows are exactly the clashes found (no CSV without --csv, nothing for an empty list)", problems.get("report-clashes", [""])[0], _K(mn, "report-clashes"))
     chk.expect("report-grouping" not in problems, "report-grouping", site, f"every listed atom is attributed to its own residue and chain pair in the report and in the CSV, also when the residues of a clash are in the opposite of their sort order ({filed} filed records: the k-th residue of the key is the residue of the k-th atom)", problems.get("report-grouping", [""])[0], _K(mn, "grouping"), found=problems.get("report-grouping", [])[:4] or None)
-    chk.expect("report-maxima" not in problems, "report-maxima", site, f"each of the {n_heads} headings prints the maximum of the occupancy sums listed below it (maxima placed first, in the middle and last)", problems.get("report-maxima", [""])[0], _K(mn, "maxima"))
+    chk.expect("report-maxima" not in problems, "report-maxima", mn.site(maxima_site[0]) if maxima_site[0] is not None else site, f"each of the {n_heads} headings prints the maximum of the occupancy sums listed below it (maxima placed first, in the middle and last)", problems.get("report-maxima", [""])[0], _K(mn, "maxima"))
     chk.expect("report-loops" not in problems, "report-loops", site, "the printed report and the CSV list the clashes in the same order, and neither depends on the iteration order of a set", problems.get("report-loops", [""])[0], _K(mn, "loops"))
     return None
